@@ -37,6 +37,11 @@ def counter_field(b, operand):
 
 
 def run(ck, m):
+    _run(ck, m)
+    self_name_agrees(ck, m)
+
+
+def _run(ck, m):
     for k, v in RULES.items():
         ck.rule(k, v)
     P = m.prog
@@ -191,6 +196,29 @@ def run(ck, m):
                       'the entry is removed only on the branch where is_full_acknowledged() answered true' if ok else
                       'pending_opps.remove is reachable without is_full_acknowledged() being true', b.loc(bi))
     ck.floor('C15.c', nrem, 1, 'removals from pending_opps')
+    # the fullness test (and with it the removal) follows EVERY counted acknowledgement: an exit between the count and
+    # the test leaves a fully acknowledged entry pending for ever (every later ack of it is a duplicate and is not counted)
+    nack = 0
+    for b in mut:
+        for abi, at in b.calls():
+            if len(ackf) != 1 or callee(at) != ackf[0].id:
+                continue
+            if isfull is None:
+                continue
+            tests = [fbi for fbi, ft in b.calls() if callee(ft) == isfull.id]
+            rems = [bi for bi, t in b.calls() if t['f'].get('dargs', '').startswith(PENDING) and callee_decl(t).endswith('::remove')]
+            for (sbi, tt, ff) in bool_switches(b, abi):
+                nack += 1
+                tested = any(b.postdominates(x, tt) or x == tt for x in tests)
+                removed = all(any(b.postdominates(r, ft_) or r == ft_ for r in rems)
+                              for x in tests for (_s, ft_, _f) in bool_switches(b, x))
+                ok = tested and removed and bool(rems)
+                ck.ob('C15.c', short(b.id), 'full-test-follows-every-counted-ack', ok,
+                      'every path from a counted acknowledgement reaches the is_full_acknowledged() test, whose true branch always removes' if ok else
+                      'a counted acknowledgement can leave the function without reaching the fullness test / the removal (test on every path: %s, '
+                      'removal on every full path: %s): the last acknowledgement is counted, the entry stays in pending_opps, and no later '
+                      'acknowledgement can remove it (duplicates are not counted) — the operation is pending for ever' % (tested, removed), b.loc(abi))
+    ck.floor('C15.c', nack, 1, 'acknowledgement sites whose result guards the fullness test')
     # ---- (d) ---------------------------------------------------------------------------
     nw = 0
     for b in P.user_bodies():
@@ -244,3 +272,50 @@ def const_sources(b, local, _seen=None):
                 if p and not p.get('p'):
                     out += const_sources(b, p['l'], seen)
     return out
+
+
+def self_name_agrees(ck, m):
+    """C15.g — the primary counts an acknowledgement under the member name it registered, i.e. the name the node announced for
+    itself; the acknowledging node signs with a field of its own Databases.  The sibling node-to-node messages in which a node
+    names itself (election candidate / alive) are the reference: the ack must take the node's name from the same field."""
+    from nl import wire
+    from nl.effects import last_named_field
+    from props import C10
+    ck.rule('C15.g', 'a node signs its acknowledgements with the same Databases field it names itself with in its other node-to-node '
+                     'messages (sibling agreement over every command-word template that carries a String field of Databases): an ack signed '
+                     'with another name is a foreign acknowledgement on the primary and is never counted')
+    P = m.prog
+    _prods, sch = C10.wire_facts(m)
+    uses = {}       # first word -> {field: loc}
+    for b in P.user_bodies():
+        if b.id.startswith(('nundb::client::', 'nundb::command_line::')):
+            continue
+        for bi, f in core.string_builders(b):
+            w = wire.first_word(f)
+            if w not in sch:
+                continue
+            for pc in f.pieces:
+                if pc[0] != 'arg' or pc[1] is None or not core.is_str_ty(pc[2]):
+                    continue
+                for r in origins(b, pc[1]):
+                    lf = last_named_field(r[-1]) if r[-1] else None
+                    if lf and lf[0].endswith('bo::Databases'):
+                        uses.setdefault(w, {})[lf[1]] = b.loc(bi)
+    ackw = [w for w in uses if sch[w][1] == ['Acknowledge']]
+    others = {w: u for w, u in uses.items() if w not in ackw}
+    ck.floor('C15.g', len(ackw), 1, 'acknowledgement templates signed with a Databases field')
+    ck.floor('C15.g', len(others), 1, 'other node-to-node templates in which the node names itself')
+    if not ackw or not others:
+        return
+    ref = set()
+    for u in others.values():
+        ref |= set(u)
+    for w in ackw:
+        mine = set(uses[w])
+        ok = len(ref) == 1 and mine == ref
+        ck.ob('C15.g', 'wire', 'ack-signed-with-the-announced-name', ok,
+              'the ack and the %s messages all name the node by Databases.%s' % (sorted(others), sorted(ref)[0]) if ok else
+              'the ack is signed with Databases.%s (%s) while %s name the node by Databases.%s: when the two differ (a node started with an '
+              'external address) the primary, which registered the pending operation under the announced name, treats every ack as '
+              'foreign — nothing it sends to that node is ever fully acknowledged' % (sorted(mine), sorted(uses[w].values()), sorted(others), sorted(ref)),
+              sorted(uses[w].values())[0])
